@@ -6,8 +6,8 @@ import MM.Model.C01
   ciphertexts produced so far.
 
     reset [sI rI sR rR]        -> ok                         new case, counters preset
-    enc I|R <msg>              -> ok <pfx> <ctr> <4 counters> | err exhausted <4 counters>
-    del I|R <k> <mutation>     -> acc <msg> <4 counters> | rej <4 counters>
+    enc I|R <msg> [plen]       -> ok <pfx> <ctr> <4 counters> | err exhausted <4 counters>
+    del I|R <k> <mutation>     -> acc <msg>|empty <4 counters> | rej <4 counters>
          mutation: none | flip <i> | ctr <v> | pfx <v> | trunc <n> | ext <n>
     raw I|R <pfx> <ctr> <len>  -> rej <4 counters>           forged frame (garbage body)
 
@@ -37,14 +37,25 @@ def mutate (p : Packet) : List String → Option Packet
   | ["ext", n] => n.toNat?.map fun n => if n = 0 then p else { p with len := p.len + n, body := .junk }
   | _ => none
 
-def showRes (st : St) : Option Res → String
-  | some (.acc _ m) => s!"acc {m} {ctrs st}"
+def showRes (st : St) (p : Packet) : Option Res → String
+  | some (.acc _ m) => if p.len = overhead then s!"acc empty {ctrs st}" else s!"acc {m} {ctrs st}"
   | some _ => s!"rej {ctrs st}"
   | none => s!"bad-op"
 
 def deliver (e : ESt) (atInit : Bool) (p : Packet) : ESt × String :=
   let (st', r) := step e.st (if atInit then .delI p else .delR p)
-  ({ e with st := st' }, showRes st' r)
+  ({ e with st := st' }, showRes st' p r)
+
+def encLine (e : ESt) (x m : String) (plen : Nat) : ESt × String :=
+  match parseEnd x, m.toNat? with
+  | some isI, some m =>
+    if plen ≠ 0 ∧ plen < 4 ∨ plen > 1048576 then (e, "bad-op") else
+    let s := if isI then e.st.i else e.st.r
+    let st' := (step e.st (if isI then .encI m plen else .encR m plen)).1
+    match (encrypt s m plen).2 with
+    | some p => ({ st := st', pool := e.pool.push p }, s!"ok {p.pfx} {p.ctr} {ctrs st'}")
+    | none => ({ e with st := st' }, s!"err exhausted {ctrs st'}")
+  | _, _ => (e, "bad-op")
 
 def stepLine (e : ESt) (line : String) : ESt × String :=
   match tokens line with
@@ -54,18 +65,10 @@ def stepLine (e : ESt) (line : String) : ESt × String :=
     | some a, some b, some c, some d =>
       ({ st := { init with i := ⟨true, a, b⟩, r := ⟨false, c, d⟩ } }, "ok")
     | _, _, _, _ => (e, "bad-op")
-  | ["enc", x, m] =>
-    match parseEnd x, m.toNat? with
-    | some isI, some m =>
-      let s := if isI then e.st.i else e.st.r
-      match (encrypt s m 4).2 with
-      | some p =>
-        let st' := (step e.st (if isI then .encI m 4 else .encR m 4)).1
-        ({ st := st', pool := e.pool.push p }, s!"ok {p.pfx} {p.ctr} {ctrs st'}")
-      | none =>
-        let st' := (step e.st (if isI then .encI m 4 else .encR m 4)).1
-        ({ e with st := st' }, s!"err exhausted {ctrs st'}")
-    | _, _ => (e, "bad-op")
+  | ["enc", x, m] => encLine e x m 4
+  | ["enc", x, m, pl] => match pl.toNat? with
+    | some pl => encLine e x m pl
+    | none => (e, "bad-op")
   | "del" :: x :: k :: mu =>
     match parseEnd x, k.toNat? with
     | some atI, some k =>
@@ -88,6 +91,7 @@ structure Sealed where
   msg : Nat
   pfx : Nat
   ctr : Nat
+  plen : Nat
 
 structure SSt where
   ctrs : Option (Nat × Nat × Nat × Nat) := none
@@ -107,7 +111,7 @@ def delivered (p : Sealed) : List String → Option (Nat × Nat × Bool)
   | ["flip", _] => some (p.pfx, p.ctr, false)
   | ["ctr", v] => v.toNat?.map fun v => (p.pfx, v, v == p.ctr)
   | ["pfx", v] => v.toNat?.map fun v => (v, p.ctr, v == p.pfx)
-  | ["trunc", n] => n.toNat?.map fun n => (p.pfx, p.ctr, n ≥ 32)
+  | ["trunc", n] => n.toNat?.map fun n => (p.pfx, p.ctr, n ≥ 28 + p.plen)
   | ["ext", n] => n.toNat?.map fun n => (p.pfx, p.ctr, n == 0)
   | _ => none
 
@@ -124,8 +128,17 @@ def delState (atI : Bool) (accepted : Bool) (before after : Nat × Nat × Nat ×
 def specDel (s : SSt) (atI : Bool) (hdr : Option (Nat × Nat × Bool)) (src : Option Sealed)
     (out : List String) : SSt × String :=
   match out with
-  | "acc" :: m :: rest =>
-    match m.toNat?, parse4 rest, hdr with
+  | "acc" :: mtok :: rest =>
+    -- `empty` = zero-length plaintext: identified with the delivered pool entry iff that one is empty
+    let mval : Option Nat := if mtok = "empty" then
+        (match src with
+         | some p => if p.plen = 0 then some p.msg else some 4294967296   -- no such message
+         | none => some 4294967296)
+      else match mtok.toNat?, src with
+        | some m, some p => if p.plen = 0 then some 4294967296 else some m
+        | some m, none => some m
+        | none, _ => none
+    match mval, parse4 rest, hdr with
     | some m, some after, some (_, hc, intact) =>
       let s' := { s with ctrs := some after }
       let accLog := if atI then s.accI else s.accR
@@ -160,12 +173,15 @@ def specLine (s : SSt) (line : String) : SSt × String :=
     else match tokens op with
     | ["reset"] => ({ ctrs := some (0, 0, 0, 0) }, "ok")
     | ["reset", a, b, c, d] => ({ ctrs := parse4 [a, b, c, d] }, "ok")
-    | ["enc", x, m] =>
+    | "enc" :: x :: m :: pl =>
+      let plen := match pl with
+        | [n] => n.toNat?.getD 4
+        | _ => 4
       match parseEnd x, m.toNat?, o with
       | some isI, some m, "ok" :: pfx :: c :: rest =>
         match pfx.toNat?, c.toNat?, parse4 rest with
         | some pfx, some c, some after =>
-          let s' := { s with ctrs := some after, pool := s.pool.push ⟨isI, m, pfx, c⟩ }
+          let s' := { s with ctrs := some after, pool := s.pool.push ⟨isI, m, pfx, c, plen⟩ }
           if pfx ≠ sendPfx isI then (s', "fail wrong-direction-prefix")
           else if s.pool.any (fun q => q.pfx = pfx ∧ q.ctr = c) then (s', "fail nonce-reuse")
           else match s.ctrs with
